@@ -12,7 +12,7 @@ mod families;
 mod ops;
 mod refmodel;
 
-use explore::{explore_family, family_size, Counters, Prop};
+use explore::{explore_family, family_size, Counters, Found, Prop};
 use qvlib::{catch, json, Ctx};
 use std::sync::atomic::Ordering;
 
@@ -127,6 +127,7 @@ fn main() {
         ctx.mark_capped("QVERIF_FAMILY restricts the run to one family");
     }
     let cnt = Counters::default();
+    let found = Found::default();
     let mut fam_info = Vec::new();
     let mut expected_total = 0u64;
     if prop == Prop::C12 {
@@ -136,7 +137,7 @@ fn main() {
     for fam in &fams {
         let t0 = ctx.elapsed_s();
         let before = cnt.histories.load(Ordering::Relaxed);
-        explore_family(&ctx, prop, fam, &cnt);
+        explore_family(&ctx, prop, fam, &cnt, &found);
         let n = cnt.histories.load(Ordering::Relaxed) - before;
         let size = family_size(fam);
         expected_total += size;
@@ -152,6 +153,7 @@ fn main() {
         }));
         eprintln!("[{}] family {}: {} histories ({} in space), {:.1}s", ctx.id, fam.name, n, size, ctx.elapsed_s() - t0);
     }
+    found.flush(&ctx);
     let histories = cnt.histories.load(Ordering::Relaxed);
     let pruned = cnt.pruned.load(Ordering::Relaxed);
     ctx.set_extra("families", json!(fam_info));
